@@ -17,3 +17,13 @@ for f in repo.all_functions():
             out.setdefault(key, set()).add(n.attr)
 json.dump({k: sorted(v) for k, v in sorted(out.items())}, open("/verif/bsa/pinned_attrs.json", "w"), indent=0)
 print(sum(len(v) for v in out.values()), "attributes in", len(out), "classes")
+
+# shape fingerprints for rename recovery (bsa/canon.py)
+import os
+os.environ["BSA_NO_CANON"] = "1"
+from bsa.canon import fingerprints, SHAPES_FILE
+repo2 = Repo("/repo")
+repo2._load_all()
+fps = fingerprints({m: t for m, t in repo2._trees.items() if not m.startswith("bellows.cli")})
+json.dump(fps, open(SHAPES_FILE, "w"), indent=0, sort_keys=True)
+print(len(fps), "scopes fingerprinted;", os.path.getsize(SHAPES_FILE) // 1024, "KiB")
